@@ -108,6 +108,15 @@ theorem nodup_insertTI {l : List (Sid × TI)} (k : Sid) (v : TI) (h : (l.map (·
     rw [List.any_eq_true]
     exact ⟨e, he, by simpa using hek⟩
 
+theorem insertTI_has (l : List (Sid × TI)) (k : Sid) (v : TI) : (k, v) ∈ insertTI l k v :=
+  lookupTI_mem (lookupTI_insert_same l k v)
+
+theorem insertTI_keeps {l : List (Sid × TI)} (k : Sid) (v : TI) {e : Sid × TI} (he : e ∈ l) : ∃ v', (e.1, v') ∈ insertTI l k v := by
+  by_cases hk : e.1 = k
+  · exact ⟨v, hk ▸ insertTI_has l k v⟩
+  · obtain ⟨v0, hv0⟩ := lookupTI_of_mem he
+    exact ⟨v0, lookupTI_mem (by rw [lookupTI_insert_ne _ _ _ _ hk]; exact hv0)⟩
+
 /-! ### worlds -/
 
 theorem sim_setSim (w : World) (p q : Sid) (s : SimCfg) :
@@ -183,6 +192,9 @@ structure BuiltOk (w : World) : Prop where
     sd.1 < w.sims.length ∧ connectInterval (w.decl p).group (w.decl sd.1).group = some sd.2
   succWaitOk : ∀ p, p < w.sims.length → ∀ sd ∈ (w.sim p).succsWait,
     sd.1 < w.sims.length ∧ connectInterval (w.decl p).group (w.decl sd.1).group = some sd.2
+  /-- every data connection registers its destination as a successor of its source (what `lazy_stepping` waits for) -/
+  succPush : ∀ p, p < w.sims.length → ∀ e ∈ (w.sim p).push, ∃ d, (e.2.1, d) ∈ (w.sim p).succs
+  succPull : ∀ q, q < w.sims.length → ∀ e ∈ (w.sim q).pulled, ∃ d, (q, d) ∈ (w.sim e.1).succs
   /-- pushed connections: started target, pair's shape, covered by the target's `input_delays` -/
   pushOk : ∀ p, p < w.sims.length → ∀ e ∈ (w.sim p).push,
     e.2.1 < w.sims.length ∧ HasShape e.2.2.1 (w.decl p).group (w.decl e.2.1).group ∧
@@ -193,7 +205,7 @@ structure BuiltOk (w : World) : Prop where
     ∃ d0, lookupTI (w.sim p).inputDelays e.1 = some d0 ∧ d0.tiers ≤ e.2.1.tiers
 
 theorem builtOk_empty : BuiltOk {} := by
-  refine ⟨rfl, ?_, ?_, ?_, ?_, ?_, ?_, ?_, ?_, ?_, ?_, ?_⟩ <;> intro p <;> simp [World.sim]
+  refine ⟨rfl, ?_, ?_, ?_, ?_, ?_, ?_, ?_, ?_, ?_, ?_, ?_, ?_, ?_⟩ <;> intro p <;> simp [World.sim]
 
 /-! ### start -/
 
@@ -225,8 +237,8 @@ theorem builtOk_start {w : World} (h : BuiltOk w) (d : SimDecl) : BuiltOk (w.sta
       have hge : w.sims.length + 1 ≤ p := by omega
       rw [List.getElem?_eq_none (by simpa using hge)]
       rfl
-  refine ⟨by simp [World.start, h.len], ?_, ?_, ?_, ?_, ?_, ?_, ?_, ?_, ?_, ?_, ?_⟩
-  rotate_right 4
+  refine ⟨by simp [World.start, h.len], ?_, ?_, ?_, ?_, ?_, ?_, ?_, ?_, ?_, ?_, ?_, ?_, ?_⟩
+  rotate_right 6
   · intro p hp sd hsd
     rcases hcase p hp with hp' | rfl
     · rw [sim_start_lt w d hp'] at hsd
@@ -239,6 +251,17 @@ theorem builtOk_start {w : World} (h : BuiltOk w) (d : SimDecl) : BuiltOk (w.sta
       obtain ⟨h1, h2⟩ := h.succWaitOk p hp' sd hsd
       exact ⟨by rw [hlen]; exact Nat.lt_succ_of_lt h1, by rw [hdecl _ hp', hdecl _ h1]; exact h2⟩
     · rw [sim_start_new] at hsd; simp at hsd
+  · intro p hp e he
+    rcases hcase p hp with hp' | rfl
+    · rw [sim_start_lt w d hp'] at he ⊢
+      exact h.succPush p hp' e he
+    · rw [sim_start_new] at he; simp at he
+  · intro q hq e he
+    rcases hcase q hq with hq' | rfl
+    · rw [sim_start_lt w d hq'] at he
+      obtain ⟨d0, hd0⟩ := h.succPull q hq' e he
+      exact ⟨d0, by rw [sim_start_lt w d (h.pullOk q hq' e he).1]; exact hd0⟩
+    · rw [sim_start_new] at he; simp at he
   · intro p hp e he
     rcases hcase p hp with hp' | rfl
     · rw [sim_start_lt w d hp'] at he
@@ -325,14 +348,22 @@ theorem builtOk_initEv {w : World} (h : BuiltOk w) (p : Sid) (t : Nat) : BuiltOk
     split
     · rename_i hq; rw [hq.1]; exact ⟨rfl, rfl⟩
     · exact ⟨rfl, rfl⟩
-  refine ⟨by simpa using h.len, ?_, ?_, ?_, ?_, ?_, ?_, fun q => by rw [(hfield q).1]; exact h.nodup q, ?_, ?_, ?_, ?_⟩
-  rotate_right 4
+  refine ⟨by simpa using h.len, ?_, ?_, ?_, ?_, ?_, ?_, fun q => by rw [(hfield q).1]; exact h.nodup q, ?_, ?_, ?_, ?_, ?_, ?_⟩
+  rotate_right 6
   · intro q hq sd hsd
     rw [(hsucc q).1] at hsd
     simpa using h.succOk q (by simpa using hq) sd hsd
   · intro q hq sd hsd
     rw [(hsucc q).2] at hsd
     simpa using h.succWaitOk q (by simpa using hq) sd hsd
+  · intro q hq e he
+    rw [(hfield q).2.2.2.2.2.1] at he
+    rw [(hsucc q).1]
+    exact h.succPush q (by simpa using hq) e he
+  · intro q hq e he
+    rw [(hfield q).2.2.2.2.2.2] at he
+    rw [(hsucc e.1).1]
+    exact h.succPull q (by simpa using hq) e he
   · intro q hq e he
     rw [(hfield q).2.2.2.2.2.1] at he
     obtain ⟨h1, h2, d0, h3, h4⟩ := h.pushOk q (by simpa using hq) e he
@@ -373,6 +404,8 @@ structure Step (w w' : World) (src dst : Sid) (port : Port) (delay dmin : TI) (t
     (p = src ∧ sd.1 = dst ∧ connectInterval (w.decl src).group (w.decl dst).group = some sd.2)
   succsWait : ∀ p sd, sd ∈ (w'.sim p).succsWait → sd ∈ (w.sim p).succsWait ∨
     (p = src ∧ sd.1 = dst ∧ connectInterval (w.decl src).group (w.decl dst).group = some sd.2)
+  succsKeep : ∀ p sd, sd ∈ (w.sim p).succs → ∃ d, (sd.1, d) ∈ (w'.sim p).succs
+  succsNew : ∃ d, (dst, d) ∈ (w'.sim src).succs
   push : ∀ p, (w'.sim p).push = (w.sim p).push ∨
     (p = src ∧ ∃ dport, (w'.sim p).push = (w.sim p).push ++ [(port, dst, delay, dport)])
   pulled : ∀ p, (w'.sim p).pulled = (w.sim p).pulled ∨
@@ -403,8 +436,8 @@ theorem builtOk_step {w w' : World} {src dst : Sid} {port : Port} {delay dmin : 
   have hnew : ∃ d0, lookupTI (w'.sim dst).inputDelays src = some d0 ∧ d0.tiers ≤ delay.tiers := by
     refine ⟨dmin, ?_, hle⟩
     rw [st.inD]; simp only [if_true]; exact lookupTI_insert_same _ _ _
-  refine ⟨by rw [st.decls, st.len]; exact h.len, ?_, ?_, ?_, ?_, ?_, ?_, ?_, ?_, ?_, ?_, ?_⟩
-  rotate_right 5
+  refine ⟨by rw [st.decls, st.len]; exact h.len, ?_, ?_, ?_, ?_, ?_, ?_, ?_, ?_, ?_, ?_, ?_, ?_, ?_⟩
+  rotate_right 7
   · intro q; rw [st.inD]; split
     · exact nodup_insertTI _ _ (h.nodup q)
     · exact h.nodup q
@@ -420,6 +453,32 @@ theorem builtOk_step {w w' : World} {src dst : Sid} {port : Port} {delay dmin : 
     rcases st.succsWait p sd hsd with hold' | ⟨hps, hsd1, hci⟩
     · exact h.succWaitOk p hp sd hold'
     · exact ⟨hsd1 ▸ hd, by rw [hps, hsd1]; exact hci⟩
+  · intro p hp e he
+    rw [st.len] at hp
+    rcases st.push p with hsame | ⟨hps, dport, happ⟩
+    · rw [hsame] at he
+      obtain ⟨d0, hd0⟩ := h.succPush p hp e he
+      exact st.succsKeep p _ hd0
+    · rw [happ] at he
+      rcases List.mem_append.mp he with he | he
+      · obtain ⟨d0, hd0⟩ := h.succPush p hp e he
+        exact st.succsKeep p _ hd0
+      · have : e = (port, dst, delay, dport) := by simpa using he
+        subst this
+        rw [hps]; exact st.succsNew
+  · intro q hq e he
+    rw [st.len] at hq
+    rcases st.pulled q with hsame | ⟨hqd, dport, happ⟩
+    · rw [hsame] at he
+      obtain ⟨d0, hd0⟩ := h.succPull q hq e he
+      exact st.succsKeep _ _ hd0
+    · rw [happ] at he
+      rcases List.mem_append.mp he with he | he
+      · obtain ⟨d0, hd0⟩ := h.succPull q hq e he
+        exact st.succsKeep _ _ hd0
+      · have : e = (src, delay, port, dport) := by simpa using he
+        subst this
+        rw [hqd]; exact st.succsNew
   · intro p hp e he
     rw [st.len] at hp ⊢
     rw [hdecl, hdecl]
@@ -681,8 +740,8 @@ theorem connectOne_step {w w' : World} {c : ConnectCall} {sa da : Nat}
     intro q; rw [e1]; split
     · rename_i hq; rw [hq]; exact ⟨dS, dSW⟩
     · exact ⟨rfl, rfl⟩
-  refine ⟨by rw [← h]; rfl, by rw [← h]; simp, ?_, ?_, ?_, ?_, ?_, ?_, ?_, ?_, ?_, ?_, ?_⟩
-  rotate_right 4
+  refine ⟨by rw [← h]; rfl, by rw [← h]; simp, ?_, ?_, ?_, ?_, ?_, ?_, ?_, ?_, ?_, ?_, ?_, ?_, ?_⟩
+  rotate_right 6
   · intro p sd hsd
     rw [e2] at hsd
     split at hsd
@@ -699,6 +758,16 @@ theorem connectOne_step {w w' : World} {c : ConnectCall} {sa da : Nat}
       rw [sSW, (gS c.src).2] at hsd
       left; rw [hp]; exact hsd
     · rw [(gS p).2] at hsd; exact Or.inl hsd
+  · intro p sd hsd
+    rw [e2]
+    split
+    · rename_i hp
+      rw [sS, (gS c.src).1]
+      rw [hp] at hsd
+      exact insertTI_keeps _ _ hsd
+    · rw [(gS p).1]; exact ⟨sd.2, hsd⟩
+  · rw [e2, if_pos rfl, sS]
+    exact ⟨plain, insertTI_has _ _ _⟩
   · intro p; rw [e2]; split
     · rename_i hp
       rcases sP with hh | hh
@@ -781,7 +850,18 @@ theorem connectAsync_builtOk {w : World} (h : BuiltOk w) {src dst : Sid} (hs : s
         · exact Or.inl hh
         · exact Or.inr ⟨rfl, hh⟩
     · exact ⟨Or.inl, Or.inl⟩
-  generalize hw1 : w.setSim src S = w1 at e1 g g2 g3
+  have g4 : (∀ q sd, sd ∈ (w.sim q).succs → ∃ d, (sd.1, d) ∈ ((w.setSim src S).sim q).succs) ∧
+      ∃ d, (dst, d) ∈ ((w.setSim src S).sim src).succs := by
+    constructor
+    · intro q sd hsd
+      rw [e1]; split
+      · rename_i hq
+        rw [sF3.1]; rw [hq] at hsd
+        exact insertTI_keeps _ _ hsd
+      · exact ⟨sd.2, hsd⟩
+    · rw [e1, if_pos rfl, sF3.1]
+      exact ⟨delay, insertTI_has _ _ _⟩
+  generalize hw1 : w.setSim src S = w1 at e1 g g2 g3 g4
   have hlen1 : w1.sims.length = w.sims.length := by rw [← hw1]; simp
   have hdecl1 : w1.decls = w.decls := by rw [← hw1]; rfl
   have e2 : ∀ q, (w1.setSim dst { w1.sim dst with inputDelays := insertTI (w1.sim dst).inputDelays src delay }).sim q =
@@ -791,8 +871,12 @@ theorem connectAsync_builtOk {w : World} (h : BuiltOk w) {src dst : Sid} (hs : s
   · intro old hold
     have := (h.inShape dst hd (src, old) (lookupTI_mem hold)).2
     exact hz _ (this.2.1.trans hshape.2.1.symm)
-  · refine ⟨by simp [hdecl1], by simp [hlen1], ?_, ?_, ?_, ?_, ?_, ?_, ?_, ?_, ?_, ?_, ?_⟩
-    rotate_right 4
+  · have hfin : ∀ q, ((w1.setSim dst { w1.sim dst with inputDelays := insertTI (w1.sim dst).inputDelays src delay }).sim q).succs = (w1.sim q).succs := by
+      intro q; rw [e2]; split
+      · rename_i hq; rw [hq]
+      · rfl
+    refine ⟨by simp [hdecl1], by simp [hlen1], ?_, ?_, ?_, ?_, ?_, ?_, ?_, ?_, ?_, ?_, ?_, ?_, ?_⟩
+    rotate_right 6
     · intro p sd hsd
       rw [e2] at hsd
       have hsd' : sd ∈ (w1.sim p).succs := by
@@ -811,6 +895,9 @@ theorem connectAsync_builtOk {w : World} (h : BuiltOk w) {src dst : Sid} (hs : s
       rcases (g3 p sd).2 hsd' with hh | ⟨hh1, hh2⟩
       · exact Or.inl hh
       · exact Or.inr ⟨hh1, by rw [hh2], by rw [hh2]; exact hdelay⟩
+    · intro p sd hsd
+      rw [hfin]; exact g4.1 p sd hsd
+    · rw [hfin]; exact g4.2
     · intro p; left; rw [e2]; split
       · rename_i hp; rw [hp]; exact (g2 dst).1
       · exact (g2 p).1
